@@ -218,6 +218,11 @@ func c10Eval(c *ctx, cs c10Case) {
 		if !c10Compare(c, cs, "one-step", got, want, filledAny) {
 			return
 		}
+		if !filledAny && !real.EqStrs(got.Variables(), tplVars) {
+			// keys that name no ellipsis of the template are ignored: nothing is renamed or renumbered
+			c.Violation("C10/unknown-ellipsis-key-not-ignored", fmt.Sprintf("no ellipsis of %s is named by %v, yet Variables() went from %q to %q", clipS(ref.Print(cs.Tpl)), cs.Counts, tplVars, got.Variables()), cs)
+			return
+		}
 		// each generated name can then be filled individually
 		vars := got.Variables()
 		var plain []string
@@ -558,7 +563,40 @@ func runC10(c *ctx) {
 			c10Eval(c, c10Case{Tpl: tpl, Counts: map[string]int{"...[1]": n, "...[0]": 1}, Step1: []string{"...[1]"}})
 		}
 	}
-	c.Required = []string{"many-remaining-ellipses", "one-step", "two-step", "individual-fill", "random-template", "nothing-to-expand"}
+	// array-like names inside repeated groups (the generated names stay unique in these templates)
+	for _, names := range [][2]string{{"a", "a[0]"}, {"p[1]", "p"}, {"q", "q[0][1]"}, {"k[2]", "k[3]"}} {
+		for _, kind := range []int{0, 1, 2} {
+			var grp *ref.Item
+			switch kind {
+			case 0: // both names in one array item
+				grp = &ref.Item{Kind: ref.U1, Slots: []ref.Slot{{Var: names[0]}, {Var: names[1]}}}
+			case 1: // in two items of a nested list
+				grp = &ref.Item{Kind: ref.L, Children: []*ref.Item{{Kind: ref.I2, Slots: []ref.Slot{{Var: names[0]}}}, {Kind: ref.A, AVar: names[1], AMin: 0, AMax: -1}}}
+			default: // a list variable and an array slot
+				grp = &ref.Item{Kind: ref.L, Children: []*ref.Item{{Var: names[0]}, {Kind: ref.F4, Slots: []ref.Slot{{Uint: 0x3F800000}, {Var: names[1]}}}}}
+			}
+			tpl := &ref.Item{Kind: ref.L, Children: []*ref.Item{grp, {Var: "..."}}}
+			for n := 0; n <= 3; n++ {
+				want := ref.Expand(tpl, map[string]int{"...": n})
+				if ref.EllipsisNamesOK(want.Vars(), false) != "" {
+					continue // this count would make two names collide; not part of the quantified domain
+				}
+				c.Class("array-like-names-in-a-repeated-group")
+				c10Eval(c, c10Case{Tpl: tpl, Counts: map[string]int{"...": n}})
+			}
+		}
+	}
+	// a fill that is refused half-way (a generated name collides with an existing one) must leave no trace: the next
+	// expansion anywhere in the process comes out as usual
+	for rep := 0; rep < 3; rep++ {
+		inner := &ref.Item{Kind: ref.L, Children: []*ref.Item{{Kind: ref.U1, Slots: []ref.Slot{{Var: "a"}}}, {Var: "...[0]"}}}
+		clash := &ref.Item{Kind: ref.L, Children: []*ref.Item{{Kind: ref.L, Children: []*ref.Item{inner, {Kind: ref.U1, Slots: []ref.Slot{{Var: "a[0]"}}}}}, {Var: "...[1]"}}}
+		real.Try(func() { real.Build(clash).FillVariables(map[string]interface{}{"...[0]": 1 + rep, "...[1]": 1}) })
+		probe := &ref.Item{Kind: ref.L, Children: []*ref.Item{{Kind: ref.U1, Slots: []ref.Slot{{Var: "x"}}}, {Var: "..."}}}
+		c.Class("expansion-after-a-refused-fill")
+		c10Eval(c, c10Case{Tpl: probe, Counts: map[string]int{"...": 1 + rep}})
+	}
+	c.Required = []string{"array-like-names-in-a-repeated-group", "expansion-after-a-refused-fill", "many-remaining-ellipses", "one-step", "two-step", "individual-fill", "random-template", "nothing-to-expand"}
 }
 
 func replayC10(c *ctx, raw json.RawMessage) {
